@@ -3,6 +3,7 @@ package swamp
 import (
 	"github.com/hydraide/hydraide/app/core/hydra/swamp/bucket"
 	"github.com/hydraide/hydraide/app/core/hydra/swamp/treasure"
+	"github.com/hydraide/hydraide/app/verifhook"
 )
 
 // GetOrBuildBucket returns the bucket for fieldPath, building its
@@ -50,9 +51,13 @@ func (s *swamp) GetOrBuildBucket(fieldPath string) bucket.Bucket {
 	s.bucketsMu.Unlock()
 
 	if !b.EqualityInitialized() {
+		verifhook.Point("bucket.build.registered")
 		snapshot := s.beaconKey.CloneUnorderedTreasures(false)
+		verifhook.Point("bucket.build.snapshot")
 		_ = b.BuildEquality(snapshot)
+		verifhook.Point("bucket.build.built")
 		_ = b.DrainPending()
+		verifhook.Point("bucket.build.drained")
 	}
 	return b
 }
